@@ -175,6 +175,41 @@ def replay_scenario(ctx: Ctx, scn: dict, fn: str, rng: random.Random, episodes: 
                           {"kind": "scenario", "fn": fn, "scenario": scn, "hostile": True})
 
 
+def harvest_repo_tests(ctx: Ctx) -> None:
+    """C->S on the repository's OWN tests: run tests/unit/autojac and tests/doc under the Jac recorder
+    plugin and validate every differentiation request they make against the property layer."""
+    import subprocess
+    import sys
+    with tempfile.TemporaryDirectory(prefix="verif_c07_repo_") as d:
+        out = os.path.join(d, "episodes.json")
+        env = dict(os.environ, VERIF_JAC_EPISODES=out, PYTHONDONTWRITEBYTECODE="1")
+        p = subprocess.run([sys.executable, "-m", "pytest", "-q", "-p", "no:cacheprovider", "-p",
+                            "harness.pytest_jac_recorder", "/repo/tests/unit/autojac", "/repo/tests/doc",
+                            "--timeout=600", "-x", "--no-header", "-W", "ignore"],
+                           cwd="/repo", env=env, capture_output=True, text=True, timeout=1500)
+        if not os.path.exists(out):
+            ctx.report_drift("JacChunks", "repository tests could not be harvested (recorder wrote nothing)")
+            ctx.note(p.stdout[-300:])
+            return
+        data = json.load(open(out))
+    if not data["installed"]:
+        ctx.report_drift("JacChunks", f"Jac recorder could not bind: {data['note']}")
+        return
+    eps = []
+    for e in data["episodes"]:
+        if not e.get("ok"):
+            ctx.count("repo_test_differentiations_that_raised")
+            continue
+        eps.append({"ep": len(eps) + 1, "fn": "repo-test:" + e["test"].split(" ")[0][-90:], "m": e["m"], "k": e["k"],
+                    "retain": e["retain"], "sweeps": e["sweeps"]})
+    ctx.extra["repo_test_episodes"] = len(eps)
+    ctx.extra["repo_tests_outcome"] = p.stdout.strip().splitlines()[-1][:120] if p.stdout.strip() else ""
+    if eps:
+        ctx.sample({"repo_test_episode": eps[len(eps) // 2]})
+        validate_episodes(ctx, eps)
+        ctx.evaluations += len(eps)
+
+
 def _sanity_hostile(ctx: Ctx) -> None:
     """The vmap-hostile op must really be vmap-hostile on this torch build (else the sequential
     clause would be checked vacuously): with k >= 2 and m >= 2 the call is expected to fail."""
@@ -233,6 +268,8 @@ def run(ctx: Ctx, replay: str | None) -> None:
     ctx.sample({"scenario": scenarios[len(scenarios) // 3]})
     summ = validate_episodes(ctx, episodes)
     ctx.extra["trace_summary"] = summ
+
+    harvest_repo_tests(ctx)
 
     if ctx.tier == "thorough":
         # float32 and other split/shapes: second pass with a different seed
